@@ -89,6 +89,45 @@ class ExprGen:
         op = self.rng.choice(["+", "+", "-", "-"])
         return ("b", op, self.expr(vars_, cfg, depth - 1), self.expr(vars_, cfg, depth - 1))
 
+    def shifted(self, v, lo, hi_incl, xs):
+        """numerators d*X + s*v + c whose non-divisible part s*v + c lies in [0, d) ONLY because v ranges over
+        [lo, hi_incl] with lo > 0 (shifted loop) or because s < 0 (mirrored loop): c < 0 or c >= d.
+        Returns (expr / d, expr % d, d)."""
+        rng = self.rng
+        w = hi_incl - lo + 1
+        d = rng.choice([x for x in (2, 3, 4, 4, 8, 8, 16) if x >= w] or [16])
+        s = rng.choice([1, 1, -1, -1])
+        if s == 1:
+            c = rng.randint(-lo, d - 1 - hi_incl)          # 0 <= v + c <= d - 1
+        else:
+            c = rng.randint(hi_incl, d - 1 + lo)           # 0 <= c - v <= d - 1
+        if rng.random() < 0.15:
+            c += rng.choice([-1, 1, d, -d])                # sometimes just outside (the rewrite must then not happen)
+        vt = ("v", v)
+        x = rng.choice(xs) if xs else None
+        k = rng.choice([1, 1, 2, -1])
+        terms = []
+        if x is not None:
+            terms.append(("b", "*", ("c", d * k), ("v", x)))
+        if rng.random() < 0.25 and xs:
+            terms.append(("b", "*", ("c", d), ("v", rng.choice(xs))))
+        form = rng.random()
+        if s == 1:
+            tail = [("+", vt), ("+" if c >= 0 else "-", ("c", abs(c)))]
+        else:
+            tail = [("+", ("c", c)), ("-", vt)] if form < 0.6 else [("-", vt), ("+", ("c", c))]
+        if form > 0.8:
+            tail = tail[::-1] if tail[0][0] == "+" and tail[1][0] == "+" else tail
+        e = None
+        for t in terms:
+            e = t if e is None else ("b", "+", e, t)
+        for sign, t in tail:
+            if e is None:
+                e = t if sign == "+" else ("neg", t)
+            else:
+                e = ("b", sign, e, t)
+        return ("b", "/", e, ("c", d)), ("b", "%", e, ("c", d)), d
+
     def cond(self, vars_, cfg, depth=2, boolatoms=()):
         r = self.rng.random()
         if depth > 0 and r < 0.18:
@@ -198,6 +237,33 @@ class SrcGen:
                 body += self.body(inner, cfg, depth - 2, ind + 2, state)
             return ["%sfor %s in seq(%d, %d):" % (pad, oi, olo, ohi),
                     "%s    for %s in seq(%s, %s):" % (pad, ij, show(ilo), show(ihi))] + body
+        if depth > 0 and r < 0.18:  # shifted / mirrored loop: non-zero lower bound, negative coefficients, and
+            # division / modulo numerators that are in range only because of that
+            ii = rng.choice([n for n in ["ii", "j", "q", "i"]])
+            lo = rng.choice([1, 2, 3, 4, 4, 5])
+            w = rng.choice([1, 2, 3, 4, 4, 8])
+            xs = [v for v in vs if v != ii]
+            inner = [(v, t) for v, t in scope if v != ii] + [(ii, "loop")]
+            out = []
+            if state["sizes"] and rng.random() < 0.2:  # symbolic lower bound (bounded only by an assertion)
+                n = rng.choice(state["sizes"])
+                out.append("%sfor %s in seq(%s, %s + %d):" % (pad, ii, n, n, w))
+            else:
+                out.append("%sfor %s in seq(%d, %d):" % (pad, ii, lo, lo + w))
+            for _ in range(rng.choice([1, 2, 2, 3])):
+                q1, m1, d1 = eg.shifted(ii, lo, lo + w - 1, xs)
+                q2, m2, d2 = eg.shifted(ii, lo, lo + w - 1, xs)
+                k = rng.random()
+                if k < 0.5:
+                    out.append("%s    sink2(%s, %s)" % (pad, show(q1), show(m2)))
+                elif k < 0.75:
+                    out.append("%s    x[(%s + %d * (%s)) %% 64] = 1.0" % (pad, show(m1), d1, show(q1)))
+                else:
+                    out.append("%s    if %s == %s:" % (pad, show(q1), show(("v", xs[0]) if xs else ("c", 0))))
+                    out.append("%s        sink2(%s, %s)" % (pad, show(m1), show(q2)))
+            if rng.random() < 0.3:
+                out += self.body(inner, cfg, depth - 1, ind + 1, state)
+            return out
         if depth > 0 and r < 0.30:  # loop
             name = rng.choice(self.LOOPNAMES) if rng.random() < 0.7 else rng.choice(vs or ["i"])
             if name in state["args"] and rng.random() < 0.7:
